@@ -124,7 +124,7 @@ def register(reg):
         return VCtx(FailAfter(it.eng.to_val(st, args[0] if args else kwargs.get("seconds", NONE)), "trio.TooSlowError"))
 
     # ---- socket -----------------------------------------------------------------------------------
-    SOCK_ERR = ["socket.timeout", "OSError", "ConnectionResetError"]
+    SOCK_ERR = ["socket.timeout", "OSError", "ConnectionResetError", "BlockingIOError"]
 
     def sent_append(eng, st, obj, data_t):
         cur = eng.heap_read(st, obj, "RT.sent")
@@ -161,6 +161,12 @@ def register(reg):
     sock_op("send", "int", ("data",))
     sock_op("connect", None, ("path",))
     sock_op("setsockopt", None)
+
+    @reg.method(RT_SOCK, "shutdown")
+    def sock_shutdown(it, st, self_v, args, kwargs, node):
+        # socket.shutdown() fails with OSError (ENOTCONN) on a connection the peer has reset
+        rt_op(it, st, "sock.shutdown", node, ["OSError"], suspends=False, sock=self_v, sock_timeout=it.eng.heap_read(st, self_v, "RT.timeout"))
+        return NONE
 
     @reg.method(RT, "close")
     def sock_close(it, st, self_v, args, kwargs, node):
@@ -427,6 +433,12 @@ def register(reg):
                 closes = c.events("rt.close")
                 return [("closes_the_runtime_stream", ("C06",), z3.And(z3.BoolVal(len(closes) == 1), closes[0].data["obj"].t == F(c, c.self, f"{short}.{field}")) if closes else False)]
 
+            def exc_checks(self, c, exc):
+                # the connection classes mark themselves CLOSED before they close the stream and the pool has already dropped
+                # them: a close() that can fail before it has released the descriptor leaks it for good (seed C06-w4-2)
+                closes = c.events("rt.close")
+                return [("runtime_stream_is_released_even_if_closing_fails", ("C06",), len(closes) >= 1)]
+
         C.__name__ = f"Close_{short}"
 
     close_contract(SYNC_STREAM, "SyS", "_sock", "sync", "close")
@@ -438,7 +450,7 @@ def register(reg):
         @reg.contract
         class M(Contract):
             key = f"{cls}.{method}"
-            props = ("C16", "C15", "C10")
+            props = ("C16", "C15", "C10", "C20")
             trees = ("async",) if kind != "sync" else ("sync",)
             params = {"host": "str", "port": "int", "timeout": "val", "local_address": "val", "socket_options": "val", "path": "val"}
             raises = CONNECT + (["Cancelled"] if kind != "sync" else []) + (["RuntimeError"] if method == "connect_unix_socket" and kind == "sync" else [])
@@ -467,6 +479,30 @@ def register(reg):
                             h = kw.get("remote_host", kw.get("host"))
                             p = kw.get("remote_port", kw.get("port"))
                             out.append(("connects_to_the_given_host_and_port", ("C10",), z3.And(c.eng.coerce(c.st, h, "str").t == c.args["host"].t, c.eng.coerce(c.st, p, "int").t == c.args["port"].t) if h is not None and p is not None else False))
+                return out
+
+            # C20: one call of the back end is ONE connection attempt - the retry loop (count, pauses 0, 0.5, 1, ... and the
+            # error that is finally raised) lives in HTTPConnection._connect and counts calls.  A loop around the runtime
+            # connect in here multiplies the attempts behind its back (seed C20-w4-1).
+            def _attempts(self, c, evs):
+                return [e for e in evs if e.name in op_events]
+
+            def on_back_edge(self, c, ordinal):
+                return [("no_second_connection_attempt_inside_one_call", ("C20",), len(self._attempts(c, c.since_cut(None))) == 0)]
+
+            def checks(self, c):
+                return [("exactly_one_connection_attempt_per_call", ("C20",), len(self._attempts(c, c.trace)) == 1)]
+
+            def exc_checks(self, c, exc):
+                out = [("at_most_one_connection_attempt_per_failed_call", ("C20",), len(self._attempts(c, c.trace)) <= 1)]
+                evs = [e for e in self._attempts(c, c.trace) if "outcome" in e.data]
+                if evs and exc.cls.startswith(EXC):
+                    o = evs[-1].data["outcome"]
+                    if o != "ok":
+                        # the error raised is the one this attempt produced (`the last error is raised`): a timeout of the
+                        # attempt is ConnectTimeout, any other failure of it ConnectError - never a synthesised class
+                        timed_out = o in ("timeout", "DeadlineCancelled", "TimeoutError", "TooSlowError")
+                        out.append(("raised_class_is_the_cause_of_this_attempt", ("C20", "C15"), exc.cls.endswith("Timeout") == timed_out))
                 return out
 
         M.__name__ = f"B_{kind}_{method}"
